@@ -385,6 +385,20 @@ func main() {
 		cs = append(cs, srcCase{Name: fmt.Sprintf("highreg-r%d", hi), Opt: "nodyn", Class: "boundary-register",
 			Src: prog(8, []string{fmt.Sprintf("mov r%d, 5", hi), fmt.Sprintf("inc r%d", hi), fmt.Sprintf("mov o0, r%d", hi)}, 0, 1)})
 	}
+	// the highest register / port mentioned in only one way: as the second operand of a two-register
+	// instruction, inside a macro body only, through plain i2r / r2o (not the mov pseudo-instruction)
+	for _, hi := range []int{1, 2, 3, 4, 7, 8, 15, 16} {
+		cs = append(cs, srcCase{Name: fmt.Sprintf("highreg-second-operand-r%d", hi), Opt: "nodyn", Class: "boundary-register",
+			Src: prog(8, []string{"mov r0, 5", fmt.Sprintf("add r0, r%d", hi), "mov o0, r0"}, 0, 1)})
+		cs = append(cs, srcCase{Name: fmt.Sprintf("highreg-cpy-source-r%d", hi), Opt: "nodyn", Class: "boundary-register",
+			Src: prog(8, []string{fmt.Sprintf("cpy r0, r%d", hi), "mov o0, r0"}, 0, 1)})
+		cs = append(cs, srcCase{Name: fmt.Sprintf("highreg-in-macro-r%d", hi), Opt: "nodyn", Class: "boundary-register",
+			Src: fmt.Sprintf("%%macro bump 0\n\tinc\tr%d\n\tinc\tr%d\n%%endmacro\n", hi, hi) + prog(8, []string{"mov r0, 5", "bump", "inc r0", "mov o0, r0"}, 0, 1)})
+	}
+	for _, k := range []int{1, 2, 3, 4, 5, 8, 9} {
+		cs = append(cs, srcCase{Name: fmt.Sprintf("highport-plain-i2r-r2o-%d", k), Opt: "nodyn", Class: "boundary-ports",
+			Src: prog(16, []string{fmt.Sprintf("i2r r0, i%d", k-1), "inc r0", fmt.Sprintf("r2o r0, o%d", k-1)}, k, k)})
+	}
 	for _, n := range []int{1, 2, 3, 4, 5, 7, 8, 9, 15, 16, 17, 31, 32, 33} {
 		var body []string
 		for i := 0; i < n-1; i++ { // + the closing jump = n lines
